@@ -3,9 +3,12 @@ module github.com/formancehq/ledger/verifharness
 go 1.26.0
 
 require (
+	github.com/formancehq/go-libs/v5 v5.6.1
 	github.com/formancehq/ledger v0.0.0
+	github.com/jackc/pgx/v5 v5.9.2
 	github.com/uptrace/bun v1.2.18
 	github.com/uptrace/bun/dialect/pgdialect v1.2.18
+	go.opentelemetry.io/otel/trace v1.43.0
 )
 
 require (
@@ -47,7 +50,6 @@ require (
 	github.com/eapache/go-xerial-snappy v0.0.0-20230731223053-c322873962e3 // indirect
 	github.com/eapache/queue v1.1.0 // indirect
 	github.com/felixge/httpsnoop v1.0.4 // indirect
-	github.com/formancehq/go-libs/v5 v5.6.1 // indirect
 	github.com/formancehq/numscript v0.0.24 // indirect
 	github.com/getkin/kin-openapi v0.134.0 // indirect
 	github.com/go-chi/chi v4.1.2+incompatible // indirect
@@ -72,7 +74,6 @@ require (
 	github.com/jackc/pgerrcode v0.0.0-20250907135507-afb5586c32a6 // indirect
 	github.com/jackc/pgpassfile v1.0.0 // indirect
 	github.com/jackc/pgservicefile v0.0.0-20240606120523-5a60cdf6a761 // indirect
-	github.com/jackc/pgx/v5 v5.9.2 // indirect
 	github.com/jackc/pgxlisten v0.0.0-20250802141604-12b92425684c // indirect
 	github.com/jackc/puddle/v2 v2.2.2 // indirect
 	github.com/jcmturner/aescts/v2 v2.0.0 // indirect
@@ -123,7 +124,6 @@ require (
 	go.opentelemetry.io/otel/log v0.17.0 // indirect
 	go.opentelemetry.io/otel/metric v1.43.0 // indirect
 	go.opentelemetry.io/otel/sdk v1.43.0 // indirect
-	go.opentelemetry.io/otel/trace v1.43.0 // indirect
 	go.uber.org/dig v1.19.0 // indirect
 	go.uber.org/fx v1.24.0 // indirect
 	go.uber.org/mock v0.6.0 // indirect
